@@ -3,6 +3,7 @@ proof:          coq/Properties_C05.v (model Kernel.v at R)
 correspondence: Kernel.v at binary64 (extracted) vs contact_model_abstract::compute_node_triangle_distance, bit-exact
 oracle/search:  exact rational closest-point computation + barycentric checks + equivariance twins, on the
                 implementation's outputs."""
+import re
 import random, math, json, itertools
 from fractions import Fraction as Fr
 import vlib
@@ -324,6 +325,25 @@ def run(ck):
         ck.notes["contact_probes_consuming_the_kernel"] = nprobe
     except vlib.BuildError as e:
         ck.notes["contact_probes_consuming_the_kernel"] = "driver build failed: " + str(e)[-200:]
+    # ---- the kernel is a pure function of its four arguments: called from 16 threads at once (as the contact models do from their
+    # parallel loops) every case returns, bit for bit, what it returns when called alone; a result held by reference across the next
+    # call keeps its value
+    sub = [c for c, _, _ in cases[off:off + 4000]]
+    pm = vlib.run([impl, "mt", "16", "8" if ck.tier == "quick" else "200"], input="\n".join(fmt(c) for c in sub) + "\n", timeout=1800)
+    mm = re.search(r"MT mismatches=(\d+) first=(-?\d+)(?: got=(\S+) sequential=(\S+))?", pm.stdout); hm = re.search(r"HELD mismatches=(\d+) first=(-?\d+)", pm.stdout)
+    if pm.returncode != 0 or not mm or not hm:
+        ck.report(dict(error=pm.stderr[-2000:]), unchecked="the kernel called from 16 threads (driver failed)", what="driver kernel mt failed")
+    else:
+        ck.notes["kernel_calls_from_16_threads"] = len(sub) * (8 if ck.tier == "quick" else 200)
+        ck.cov["evaluations"] += len(sub)
+        if int(mm.group(1)) > 0:
+            i_ = int(mm.group(2))
+            ck.report(dict(input=fmt(sub[i_]), threads=16, got=mm.group(3), sequential=mm.group(4), mismatches=int(mm.group(1))), oracle="kernel_result_is_a_function_of_its_arguments", key="kernel:threads",
+                      what="called from 16 threads at once, %s evaluations returned something else than the same call alone (first: case %d, got %s, alone %s)" % (mm.group(1), i_, mm.group(3), mm.group(4)))
+        elif int(hm.group(1)) > 0:
+            i_ = int(hm.group(2))
+            ck.report(dict(input=fmt(sub[i_]), next_input=fmt(sub[i_ + 1])), oracle="kernel_result_is_a_function_of_its_arguments", key="kernel:held",
+                      what="a result held by reference changed when the kernel was called again (%s of %d consecutive pairs)" % (hm.group(1), len(sub) - 1))
     ck.cov["trusted_base"] = vlib.TRUSTED_BASE_COMMON + ["exact rational oracle in Python (fractions)"]
     ck.assumptions = ["triangle non-degenerate (Gram determinant > 0); real arithmetic in the theorems, binary64 in the correspondence",
                       "oracle judges only triangles with Gram determinant > 1e-6 |ab|^2|ac|^2 (conditioning)"]
